@@ -1195,6 +1195,53 @@ func vsGen(r *vu.Rng, size int) *vsCluster {
 	if r.Chance(2, 3) {
 		vsCohere(r, c)
 	}
+	// one rule, two backends in two namespaces, each under a BackendTLSPolicy of its own namespace that names the same hostname and a
+	// ConfigMap called "ca": two different CA bundles behind equal-looking policies
+	if len(c.Routes) > 0 && !c.Routes[0].GRPC && len(c.Routes[0].Rules) > 0 && r.Chance(1, 8) {
+		rt := &c.Routes[0]
+		other := "team-a"
+		if rt.NS == other {
+			other = "default"
+		}
+		if rt.NS == "default" || rt.NS == "team-a" {
+			ensureSvc := func(ns, name string) {
+				for _, sv := range c.Services {
+					if sv.NS == ns && sv.Name == name {
+						return
+					}
+				}
+				c.Services = append(c.Services, vsService{NS: ns, Name: name, Ports: []int32{80}})
+			}
+			ensureSvc(rt.NS, "svc-a")
+			ensureSvc(other, "svc-a")
+			w0 := int32([]int{0, 1, 3}[r.Intn(3)])
+			rt.Rules[0].Filters = nil
+			rt.Rules[0].Backends = []vsBackend{{NS: vsPtr(other), Name: "svc-a", Port: 80, Weight: w0}, {Name: "svc-a", Port: 80, Weight: 1}}
+			c.Grants = append(c.Grants, vsGrant{NS: other, Name: "grant-twoca", From: []vsGrantFrom{{Group: "gateway.networking.k8s.io", Kind: "HTTPRoute", NS: rt.NS}},
+				To: []vsGrantTo{{Group: "", Kind: "Service"}}})
+			var cms []vsConfigMap
+			for _, m := range c.ConfigMaps {
+				if m.Name != "ca" {
+					cms = append(cms, m)
+				}
+			}
+			c.ConfigMaps = append(cms, vsConfigMap{NS: rt.NS, Name: "ca", OK: true}, vsConfigMap{NS: other, Name: "ca", OK: true})
+			var bt []vsBTP
+			for _, b := range c.BTPs {
+				keep := true
+				for _, t := range b.Targets {
+					if t == "svc-a" {
+						keep = false
+					}
+				}
+				if keep {
+					bt = append(bt, b)
+				}
+			}
+			c.BTPs = append(bt, vsBTP{NS: rt.NS, Name: "btp-twoca-1", TS: 1, Targets: []string{"svc-a"}, Host: "backend.example.com", CA: vsPtr("ca")},
+				vsBTP{NS: other, Name: "btp-twoca-2", TS: 1, Targets: []string{"svc-a"}, Host: "backend.example.com", CA: vsPtr("ca")})
+		}
+	}
 	// two HTTPS listeners whose certificates live in one foreign namespace, of which a ReferenceGrant names only the first
 	if len(c.Gateways) > 0 && c.Gateways[0].Class == vpClassName && r.Chance(1, 8) {
 		g := &c.Gateways[0]
